@@ -483,11 +483,83 @@ def check_config(v, name, invariants, dev, variants=None):
     return clean
 
 
+def _redis_leg(v, tier):
+    """C15: the bundled Redis backends' retry loops over a fake redis client
+    with scripted failures (RedisRetry.tla / RedisRetryTraces.tla)."""
+    import subprocess
+    import sys
+    wd = os.path.join(common.WORK, v.pid, 'redis')
+    os.makedirs(wd, exist_ok=True)
+    cfg1 = ('INIT Init\nNEXT Next\nCONSTANT MaxSteps = %d\n'
+            'INVARIANT SleepIsBoundedBackoff\nINVARIANT NeverGivesUp\n'
+            'INVARIANT ResetAfterRecovery\n' % (26 if tier == 'quick' else 34))
+    r1 = tlc.run_tlc(os.path.join(wd, 'g1'), 'RedisRetry', cfg1, workers=8)
+    v.log('  [redis] G1 retry machine: %d states, %s' % (
+        r1.distinct, 'ok' if r1.ok else r1.violation or r1.error))
+    if r1.error:
+        v.error('TLC: ' + r1.error)
+        return
+    if not r1.ok:
+        v.violation('RedisRetry.tla violates ' + str(r1.violation),
+                    {'tlc': r1.out[-3000:]})
+    v.cov['states'] += r1.distinct
+    v.cov['transitions'] += r1.generated
+    tf = os.path.join(wd, 'recorded.json')
+    p = subprocess.run([sys.executable, '-m', 'harness.redis_retry', tf,
+                        tier], cwd=common.ROOT, capture_output=True,
+                       text=True, timeout=1200)
+    if p.returncode != 0:
+        v.error('redis harness failed: ' + (p.stdout + p.stderr)[-1500:])
+        return
+    traces = json.load(open(tf))
+    edges, out, index = [], [[]], []
+    nn = 1
+    for t in traces:
+        cur = 1
+        for e in t['events']:
+            nn += 1
+            out.append([])
+            edges.append({'dst': nn, 'e': e})
+            out[cur - 1].append(len(edges))
+            index.append(t)
+            cur = nn
+    gf = os.path.join(wd, 'traces.json')
+    with open(gf, 'w') as f:
+        json.dump({'out': out, 'edges': edges}, f)
+    r2 = tlc.run_tlc(os.path.join(wd, 'g2'), 'RedisRetryTraces',
+                     'INIT GInit\nNEXT GNext\nCONSTANT MaxSteps = 0\n'
+                     'INVARIANT AllEventsOK\n'
+                     'INVARIANT SleepIsBoundedBackoff\n',
+                     env={'GRAPH_FILE': gf}, workers=4)
+    v.log('  [redis] G2 %d recorded executions of RedisManager / '
+          'AsyncRedisManager (%d events): %s' % (
+              len(traces), len(edges),
+              'ok' if r2.ok else r2.violation or r2.error))
+    if r2.error:
+        v.error('TLC: ' + r2.error)
+    elif not r2.ok:
+        import re
+        rej = [x for x in r2.prints if 'EVENT_REJECTED' in x]
+        rep = {'verdict': rej[0][:2000] if rej else str(r2.violation)}
+        if rej:
+            i = int(re.search(r'"EVENT_REJECTED", (\d+)', rej[0]).group(1))
+            rep['execution'] = index[i - 1]
+        v.violation('recorded execution of the Redis backend is not a '
+                    'behaviour of RedisRetry.tla: ' + rep['verdict'][:1200],
+                    rep)
+    else:
+        v.cov['traces_validated_against_impl'] += len(traces)
+        v.add_run(config='redis_retry', impl='both', impl_states=len(edges),
+                  impl_edges=len(edges), g2_ok=True)
+
+
 def run(pid, tier):
     v = common.Verdict(pid, tier)
     _run_plan(v, pid, pid, tier)
     for extra in PLAN[pid].get('also', []):
         _run_plan(v, pid, extra, tier)
+    if pid == 'C15':
+        _redis_leg(v, tier)
     v.cov['rule'] = ('every action of the configuration alphabet (or every '
                      'scheduler choice) from every reachable abstract state '
                      'of the real threaded and asyncio classes; distinct = '
